@@ -248,8 +248,19 @@ def run(tier, seed):
         cases.text("s", SIBLING); cases.raw("disk sib/conftest.py s")
         cases.text("tp", THIRD); cases.raw("disk vv/lib/site-packages/tp/plugin.py tp")
         cases.text("t", text); cases.raw("disk pkg/test_u.py t")
-        for p, tid in (("conftest.py", "c"), ("sib/conftest.py", "s"), ("vv/lib/site-packages/tp/plugin.py", "tp"), ("pkg/test_u.py", "t")):
+        for p, tid in (("conftest.py", "c"), ("sib/conftest.py", "s"), ("vv/lib/site-packages/tp/plugin.py", "tp")):
             cases.op("analyze", p, tid)
+        # an earlier version of the SAME LENGTH whose line breaks sit elsewhere (a blank line moved to the top):
+        # the findings are positions in the final text, nothing of the earlier layout may survive
+        ls = text.split("\n")
+        blanks = [j for j in range(2, len(ls) - 1) if ls[j] == "" and not ls[j + 1].startswith((" ", "\t"))]
+        if blanks and rng.random() < 0.4:
+            j = rng.choice(blanks)
+            prev = "\n".join([""] + ls[:j] + ls[j + 1:])
+            if len(prev) == len(text):
+                cases.text("tprev", prev)
+                cases.op("analyze", "pkg/test_u.py", "tprev")
+        cases.op("analyze", "pkg/test_u.py", "t")
         cases.q("undeclared", "pkg/test_u.py")
         for nm in ("alpha", "beta", "gamma", "delta", "nofixture"):
             cases.q("resolve", "pkg/test_u.py", nm)
